@@ -21,6 +21,7 @@ EXPLANATION = (
     "type_tree uses the same order; assertHasMessage/assertHasAction take element 0 after asserting "
     "non-emptiness, compare `succeeded`, and use the superset comparison of assertContainsFields."
     "  C03.truthful is included: the success flag the helpers expose is the status Action.finish stores, which must be 'succeeded' exactly when no exception was given."
+    "  of_type may rebuild an action from that task's messages only if they are ALL of them in log order (defaultdict(list) + append loop); itertools.groupby over the unsorted log keeps the last run only."
 )
 RULE = "obligation = rule instance bound to a filter / loop / call of eliot/testing.py; non-trivial = expressions or CFG paths examined"
 ASSUMPTIONS = ["agreement with eliot.parse on arbitrary trees is NOT decided by this check",
@@ -109,7 +110,14 @@ def _scan(chk, f, listparam):
     if comps:
         g = comps[0].generators[0]
         return "comprehension", g.target.id, [(e, "true") for e in g.ifs], [comps[0].elt], problems
-    slices = [x for x in iter_own_nodes(f.node) if isinstance(x, (ast.For, ast.ListComp))]
+    # the result is produced group by group instead of message by message: its order is then the order of the groups, not of the log
+    for x in iter_own_nodes(f.node):
+        if isinstance(x, ast.For) and isinstance(x.iter, ast.Call) and isinstance(x.iter.func, ast.Attribute) and x.iter.func.attr in ("items", "values") \
+                and isinstance(x.iter.func.value, ast.Name) and x.iter.func.value.id in groups:
+            chk.bad("C17.select", "%s:selects-in-log-order" % f.qualname, chk.where(f, x.lineno),
+                    "the result is built by walking `%s` task by task: actions of different tasks come out grouped by task (in order of each task's first message), not in the order in which "
+                    "they were logged -- with interleaved tasks the list differs from the log order the helper is documented to keep" % unparse(x.iter)[:40])
+            raise AnalysisError("%s: scan is per task" % f.fq)
     raise AnalysisError("%s: scan over %s not found (sliced / filtered / enumerated iteration is not modelled)" % (f.fq, listparam))
 
 
